@@ -77,6 +77,23 @@ class C08(Check):
         yield dict(base, writer={"type": "enum", "name": "E", "symbols": ["A", "B"]}, reader={"type": "enum", "name": "E", "symbols": ["A"], "default": "A"}, datum="B")
         yield dict(base, writer={"type": "enum", "name": "E", "symbols": ["A", "B"]}, reader={"type": "enum", "name": "E", "symbols": ["A"]}, datum="B")
         yield dict(base, writer={"type": "array", "items": "int"}, reader={"type": "array", "items": "string"}, datum=[])
+        # regression cases of the repaired resolution defects (one per fix commit)
+        recA = {"type": "record", "name": "ns.A", "fields": [{"name": "x", "type": "int"}]}
+        enumA = {"type": "enum", "name": "A", "symbols": ["P", "Q"]}
+        yield dict(base, writer=recA, reader=[enumA, recA], datum={"x": 1})  # kinds must agree (ac80dc0)
+        yield dict(base, writer=["null", recA], reader=["null", enumA, recA], datum={"x": 2})
+        e1 = {"type": "enum", "name": "E1", "symbols": ["A", "B"]}
+        holder_w = {"type": "record", "name": "H", "fields": [{"name": "a", "type": e1}, {"name": "v", "type": "E1"}]}
+        holder_r = {"type": "record", "name": "H", "fields": [{"name": "v", "type": [e1, "float"]}, {"name": "a", "type": "E1"}]}
+        yield dict(base, writer=holder_w, reader=holder_r, datum={"a": "A", "v": "B"})  # by-name writer vs inline in reader union (317512f)
+        holder_r2 = {"type": "record", "name": "H", "fields": [{"name": "a", "type": e1}, {"name": "v", "type": ["E1", "float"]}]}
+        holder_w2 = {"type": "record", "name": "H", "fields": [{"name": "v", "type": e1}, {"name": "a", "type": "E1"}]}
+        yield dict(base, writer=holder_w2, reader=holder_r2, datum={"a": "A", "v": "B"})  # inline writer vs by-name branch of a reader union
+        two = [{"type": "record", "name": "ns.A", "fields": [{"name": "a", "type": "string"}]}, {"type": "record", "name": "A", "fields": [{"name": "a", "type": ["int"]}]}]
+        yield dict(base, writer={"type": "array", "items": two}, reader={"type": "array", "items": [dict(two[0]), dict(two[1], doc="copy")]}, datum=[{"a": 0}, {"a": "s"}])  # same full name first (d9ec719)
+        yield dict(base, writer="string", reader=["bytes", "string"], datum="txt")  # exact type before promotion (8a9a1a4)
+        fx = {"type": "fixed", "name": "F", "size": 2}
+        yield dict(base, writer=fx, reader={"type": "fixed", "name": "F", "size": 3}, datum=b"ab")  # size mismatch is an error
 
     def run_case(self, case):
         wjs, rjs = case["writer"], case["reader"]
